@@ -39,10 +39,10 @@ def c07_jobs(ctx, focus=()):
     r = ctx.rng
     jobs = []
     for nm in search.all_names():
-        for rep in range((1 if ctx.quick else 10) * ctx.boost + (4 if nm in focus else 0)):
+        for rep in range((1 if ctx.quick else 10) * ctx.boost + (12 if nm in focus else 0)):
             seed = r.choice([42, 0, 1, 7, 123456, 2**31 - 1, r.randint(0, 10**6)])
-            objs = ["sphere", "rastrigin", "step", "const"] if nm not in focus else ["const", "const", "step", "sphere", "zero", "deadzone"]    # const / zero: every cost tied
-            t = search.cont_task(obj=r.choice(objs), minmax=r.choice(["min", "max"]), seed=seed, dim=r.choice([2, 3]))
+            objs = ["sphere", "rastrigin", "step", "const"] if nm not in focus else ["const", "step", "step", "terraces", "sphere", "zero", "deadzone", "violation"]    # const / zero: every cost tied
+            t = search.cont_task(obj=r.choice(objs), minmax=r.choice(["min", "max"]), seed=seed, dim=r.choice([2, 3]), **({"lo": -5.12, "hi": 5.12} if nm in focus and r.random() < 0.5 else {}))
             cfg = {"max_cycles": r.choice([2, 4] if nm not in focus else [4, 12, 40]), "fitness_error": None}
             jobs.append(({"opt": nm, "cfg": cfg, "task": t}, {"opt": nm, "cfg": cfg, "task": t, "pre_draws": r.randint(1, 50)}))
     # the same seeded call twice on ONE instance reproduces itself (buffers kept across runs must not replace the seeded draws)
@@ -243,8 +243,8 @@ def c12_jobs(ctx, names, focus=()):
     r = ctx.rng
     jobs = []
     for nm in names:
-        for _ in range((1 if ctx.quick else 10) * ctx.boost + (5 if nm in focus else 0)):
-            obj = r.choice(["sphere", "rastrigin", "step", "shifted", "linear", "lognan"] + (["deadzone", "deadzone", "zero", "neg:deadzone"] if nm in focus else []))
+        for _ in range((1 if ctx.quick else 10) * ctx.boost + (12 if nm in focus else 0)):
+            obj = r.choice(["sphere", "rastrigin", "step", "shifted", "linear", "lognan"] + (["deadzone", "violation", "violation", "violation", "terraces", "neg:violation"] if nm in focus else []))
             seed = r.randint(0, 10**6); dim = r.choice([2, 3]); lo, hi = r.choice([(-10.0, 10.0), (0.0, 5.0), (-3.0, 1.0)])
             if obj == "lognan": lo, hi = -10.0, 10.0
             cfg = {"max_cycles": r.choice([2, 4] if nm not in focus else [4, 10, 30]), "fitness_error": None, "early_stopping": None}
